@@ -15,6 +15,7 @@ fn hexvec(v: &[f64]) -> Value { Value::from(v.iter().map(|x| json!(bits(*x))).co
 fn fvec(v: Option<&Value>) -> Vec<f64> {
     match v.and_then(|x| x.as_array()) { None => vec![], Some(a) => a.iter().map(|x| if let Some(i) = x.as_i64() { i as f64 } else { hexf(x) }).collect() }
 }
+fn lead_nz3(a: &[(f64, f64)]) -> bool { a.len() == 4 && (a[3].0 != 0.0 || a[3].1 != 0.0) }
 fn round_i(x: f64) -> i64 { if x.is_finite() && x.abs() < 1e9 { x.round() as i64 } else { BAD } }
 
 /// |p(z)| by Horner in complex double-double
@@ -25,8 +26,30 @@ fn horner_abs(a: &[(f64, f64)], z: (f64, f64)) -> f64 {
     s.abs()
 }
 
+/// Calls that the crate refuses (panic or Err), each under guarded(), in every element type: whatever they leave behind on this thread
+/// must not influence the calls that follow.
+pub fn refuse(kind: &str) {
+    let _ = guarded(|| match kind {
+        "deg0" => { let _ = Polynomial::<f64>::new(vec![7.0]).roots(false); }
+        "deg0cx" => { let _ = Polynomial::<Cmplx>::new(vec![Cmplx::new(0.0, 2.0)]).roots(true); }
+        "empty" => { let _ = Polynomial::<f64>::new(vec![]).roots(false); }
+        "zero" => { let _ = Polynomial::<Cmplx>::new(vec![Cmplx::new(0.0, 0.0)]).roots(false); }
+        "index" => { let p = Polynomial::<f64>::new(vec![1.0, 2.0]); let _ = p[5]; }
+        "evalempty" => { let _ = Polynomial::<f64>::new(vec![]).eval(1.0); let _ = 0; }
+        _ => { let _ = Polynomial::<f64>::new(vec![3.0, 1.0]).polydiv(&Polynomial::<f64>::new(vec![])); }
+    });
+    if kind == "deg0" { let _ = guarded(|| Polynomial::<Cmplx>::new(vec![Cmplx::new(1.0, 1.0)]).roots(false)); }
+}
+
 pub fn exec(case: &Value, out: &mut Out) {
     if case.get("steps").is_some() { return exec_seq(case, out); }
+    if let Some(k) = case.get("poison").and_then(|v| v.as_str()) {
+        // a refused call, IMMEDIATELY followed on this thread by an ordinary one - and once more
+        refuse(k);
+        let mut c = case.clone(); c.as_object_mut().unwrap().remove("poison");
+        c["rep"] = json!(1); exec(&c, out); c["rep"] = json!(2); exec(&c, out);
+        return;
+    }
     let ty = gets(case, "ty"); let refine = case["refine"].as_bool().unwrap_or(false);
     let (re, im) = if case.get("re").is_some() { (fvec(case.get("re")), fvec(case.get("im"))) } else { (fvec(case.get("a")), fvec(case.get("ai"))) };
     let a: Vec<(f64, f64)> = re.iter().enumerate().map(|(k, x)| (*x, if ty == "cx" { im.get(k).cloned().unwrap_or(0.0) } else { 0.0 })).collect();
@@ -86,13 +109,38 @@ fn log_roots(case: &Value, out: &mut Out, ty: &str, refine: bool, a: &[(f64, f64
     // A second class: a cubic with a root exactly at zero, polished (deg = 3, a0 = 0, refine): only the matching clause is affected.
     let lag = deg >= 4 && matches!(gets(case, "cls"), "binomial" | "ring" | "sparse" | "coeffs");
     let zp = deg == 3 && refine && a[0].0 == 0.0 && a[0].1 == 0.0;
-    // A third class: the unrefined cubic (Complex type) whose Cardano quantity d1 = 2b^3 - 9abc + 27a^2 d lies on or within 0.6 degrees of
-    // the imaginary axis (|Re d1| <= 0.01 |d1|), e.g. a*x^3 + d with real a and purely imaginary d.
-    let ca = deg == 3 && !refine && ty == "cx" && {
+    // Cubics: discriminating quantities of Cardano's formula, computed from the INPUT with the formulae of the specification
+    //   d0 = b^2 - 3ac, d1 = 2b^3 - 9abc + 27a^2 d, R = -27 a^2 dis (= d1^2 - 4 d0^3), s = principal sqrt(R), base = (d1 +- s)/2.
+    // `cancel`: the documented sign rule (minus iff d1 < 0 in the lexicographic order) selects the branch in which d1 and s cancel
+    //   (|chosen| < 1e-6 |other|) - the class of the recorded finding D13; everything else on the cubic path is strict.
+    // `amp_e`: decimal exponent of the amplification sum|terms of dis| / |dis| (cancellation of the discriminant for near-multiple roots),
+    //   which selects the backward-error guard of the unrefined cubic path in Roots.tla.
+    let mut cancel = false;
+    if deg == 3 && lead_nz3(a) {
         let c = |k: usize| Cmplx::new(a[k].0, a[k].1);
         let (ca_, cb, cc, cd) = (c(3), c(2), c(1), c(0));
-        let d1 = 2.0 * cb * cb * cb - 9.0 * ca_ * cb * cc + 27.0 * ca_ * ca_ * cd;
-        d1.real.abs() <= 0.01 * d1.abs() && d1.abs() > 0.0 };
+        let (a2, b2, c2, d2) = (ca_ * ca_, cb * cb, cc * cc, cd * cd);
+        let terms = [18. * ca_ * cb * cc * cd, -4. * cb * b2 * cd, b2 * c2, -4. * ca_ * c2 * cc, -27. * a2 * d2];
+        let dis = 18. * ca_ * cb * cc * cd - 4. * cb * b2 * cd + b2 * c2 - 4. * ca_ * c2 * cc - 27. * a2 * d2;
+        let d0 = b2 - 3. * ca_ * cc;
+        let d1 = 2. * b2 * cb - 9. * ca_ * cb * cc + 27. * a2 * cd;
+        let sq = (-27. * ca_ * ca_ * dis).sqrt();
+        let minus = d1 < Cmplx::new(0.0, 0.0);
+        let (chosen, other) = if minus { (d1 - sq, d1 + sq) } else { (d1 + sq, d1 - sq) };
+        cancel = chosen.abs() < 1e-6 * other.abs() && !(d0 == Cmplx::new(0.0, 0.0) && d1 == Cmplx::new(0.0, 0.0));
+        let tsum: f64 = terms.iter().map(|t| t.abs()).sum();
+        let amp = if dis.abs() > 0.0 { tsum / dis.abs() } else { f64::INFINITY };
+        e["amp_e"] = json!(if amp.is_finite() { (amp.log10().floor() as i64).clamp(0, 30) } else { 99 });
+        e["cancel"] = json!(cancel);
+        e["d1re_s"] = json!(if d1.real > 0.0 { 1 } else if d1.real < 0.0 { -1 } else { 0 });
+        e["d1im_s"] = json!(if d1.imag > 0.0 { 1 } else if d1.imag < 0.0 { -1 } else { 0 });
+        // which square root came out: +1 if s is on the side of d1 (Re(conj(d1) s) > 0), -1 opposite, 0 undecided
+        let side = (Cmplx::new(d1.real, -d1.imag) * sq).real;
+        e["s_side"] = json!(if side > 0.0 { 1 } else if side < 0.0 { -1 } else { 0 });
+        let (m0, m1) = (d0.abs().powi(3), d1.abs().powi(2));
+        e["d0d1_e"] = json!(if m0 > 0.0 && m1 > 0.0 { ((m0 / m1).log10().floor() as i64).clamp(-40, 40) } else if m0 == 0.0 { -99 } else { 99 });
+    }
+    let ca = deg == 3 && !refine && cancel;
     let fam = if lag { "lagcycle" } else if zp { "zeropolish" } else if ca { "cardanoaxis" } else { "" };
     e["fam"] = json!(fam);
     extra(&mut e);
@@ -253,6 +301,8 @@ pub fn gen(tier: &str, seed: u64, out: &mut Out) {
     }
     gen_special_low(quick, &mut rng, out, &mut push);
     gen_small_integer(quick, seed, out, &mut push);
+    gen_cardano_axes(quick, out, &mut push);
+    gen_poison(quick, seed, out, &mut push);
     gen_sequences(quick, &mut rng, out, &mut push);
     let _ = DD::ZERO;
 }
@@ -492,4 +542,58 @@ fn gen_small_integer(quick: bool, seed: u64, out: &mut Out, push: &mut dyn FnMut
     else { for idx in 0..n5 { let a = nth_small(6, idx); emit(out, "enum5", &a, None, false); } }
     let n6 = count_small(7);
     for _ in 0..(if quick { 500 } else { 40000 }) { let a = nth_small(7, rng.gen_range(0..n6)); emit(out, "enum6", &a, None, false); }
+}
+
+// ------------------------------------------------------------------ Cardano sign / branch sub-classes (deterministic)
+/// Cubics whose Cardano quantity d1 = 2b^3 - 9abc + 27a^2 d lies EXACTLY on an axis: Re(d1) = 0 with Im(d1) of both signs, Im(d1) = 0 with
+/// Re(d1) of both signs; d0 = b^2 - 3ac tiny (|d0|^3 << |d1|^2) in all eight directions, zero, or moderate; both refinement settings;
+/// complex and real coefficients.  Which of these the recorded finding D13 covers is decided per event by the logged field `cancel`.
+fn gen_cardano_axes(quick: bool, out: &mut Out, push: &mut dyn FnMut(&mut Out, Value)) {
+    let dirs: [C; 8] = [(1.0, 1.0), (1.0, -1.0), (-1.0, 1.0), (-1.0, -1.0), (1.0, 0.0), (-1.0, 0.0), (0.0, 1.0), (0.0, -1.0)];
+    let eps: Vec<f64> = if quick { vec![1e-4, 3e-5, 1e-2, 0.0] } else { vec![1e-4, 3e-5, 2e-4, 1e-6, 1e-2, 0.3, 0.0] };
+    let ts: Vec<f64> = if quick { vec![1.0, 2.5] } else { vec![1.0, 2.5, 0.7, 40.0] };
+    let mut emit = |out: &mut Out, cx: bool, a: [C; 4]| {
+        for refine in [false, true] {
+            let mut c = json!({"ty": if cx { "cx" } else { "f64" }, "refine": refine, "cls": "cardano", "sep": false, "a": hexvec(&a.iter().map(|c| c.0).collect::<Vec<f64>>())});
+            if cx { c["ai"] = hexvec(&a.iter().map(|c| c.1).collect::<Vec<f64>>()); }
+            push(out, c);
+        } };
+    for lead in [(1.0, 0.0), (-2.0, 0.0), (0.0, 1.0)] { for &t in &ts { for daxis in [(0.0, 1.0), (0.0, -1.0), (1.0, 0.0), (-1.0, 0.0)] { for &e in &eps { for u in dirs {
+        if e == 0.0 && u != dirs[0] { continue; }
+        // a x^3 + e*u x + t*daxis   (b = 0: d1 = 27 a^2 d exactly on an axis, d0 = -3 a c)
+        emit(out, true, [(t * daxis.0, t * daxis.1), (e * u.0, e * u.1), (0.0, 0.0), lead]);
+    } } } } }
+    // b purely imaginary, c = 0, d purely imaginary: d1 = 2b^3 + 27a^2 d purely imaginary, d0 = b^2 real
+    for &t in &ts { for sb in [1.0, -1.0] { for sd in [1.0, -1.0] { for beta in [1e-2, 3e-2, 0.5] {
+        emit(out, true, [(0.0, sd * t), (0.0, 0.0), (0.0, sb * beta), (1.0, 0.0)]);
+    } } } }
+    // real coefficients: d1 real of both signs, d0 tiny of both signs
+    for lead in [1.0, -2.0] { for &t in &ts { for sd in [1.0, -1.0] { for &e in &eps { for sc in [1.0, -1.0] {
+        if e == 0.0 && sc < 0.0 { continue; }
+        emit(out, false, [(sd * t, 0.0), (sc * e, 0.0), (0.0, 0.0), (lead, 0.0)]);
+        emit(out, true, [(sd * t, 0.0), (sc * e, 0.0), (0.0, 0.0), (lead, 0.0)]);
+    } } } } }
+}
+
+// ------------------------------------------------------------------ state left behind by a refused call
+/// Every refusing call (degree 0, empty, all-zero, index out of range, eval of the empty polynomial, polydiv by the empty polynomial), immediately
+/// followed on the same thread by ordinary roots() calls of every degree 1..8 (both settings, both element types), twice; judged as usual.
+fn gen_poison(quick: bool, seed: u64, out: &mut Out, push: &mut dyn FnMut(&mut Out, Value)) {
+    let mut rng = rng(seed, 111); let rng = &mut rng;
+    for rep in 0..(if quick { 1 } else { 6 }) { for kind in ["deg0", "deg0cx", "empty", "zero", "index", "evalempty", "divempty"] { for n in 1..=8usize { for cx in [false, true] {
+        let lead: C = if cx { (unif(rng, 0.5, 2.0), unif(rng, -1.0, 1.0)) } else { (unif(rng, 0.5, 2.0), 0.0) };
+        // well separated roots: integers-ish points on a grid, jittered
+        let mut roots: Vec<C> = vec![];
+        if cx { for k in 0..n { roots.push(((k as f64) - 3.5 + unif(rng, -0.2, 0.2), ((k * 3 % 5) as f64) - 2.0 + unif(rng, -0.2, 0.2))); } }
+        else { let mut k = 0; while roots.len() < n { if n - roots.len() >= 2 && k % 2 == 0 { let r = ((k as f64) * 0.8 - 2.0, 1.0 + 0.5 * k as f64); roots.push(r); roots.push((r.0, -r.1)); } else { roots.push(((k as f64) - 3.0 + unif(rng, -0.2, 0.2), 0.0)); } k += 1; } }
+        let mut a = expand(lead, &roots); if !cx { for c in a.iter_mut() { c.1 = 0.0; } }
+        let sep = condition(&a, &roots) <= 1e3;
+        for refine in [false, true] {
+            let mut c = json!({"ty": if cx { "cx" } else { "f64" }, "refine": refine, "cls": "poison", "poison": kind, "sep": sep, "a": hexvec(&a.iter().map(|c| c.0).collect::<Vec<f64>>()),
+                               "tr": hexvec(&roots.iter().map(|c| c.0).collect::<Vec<f64>>()), "tri": hexvec(&roots.iter().map(|c| c.1).collect::<Vec<f64>>())});
+            if cx { c["ai"] = hexvec(&a.iter().map(|c| c.1).collect::<Vec<f64>>()); }
+            push(out, c);
+        }
+        let _ = rep;
+    } } } }
 }
